@@ -281,6 +281,8 @@ def finish(ctx, level="model_checking", rule="", extra_cov=None):
         log("KNOWN-FINDING: property=%s %s [%s] (%d occurrence(s) this run)" % (ctx.prop, f["title"], sig, len(vs)))
     rc = 0
     replay_dir = os.path.join(VERIF, "evidence", "replay")
+    for old in glob.glob(os.path.join(replay_dir, "%s-%s-*.json" % (ctx.prop, ctx.tier))):
+        os.unlink(old)
     if unlisted:
         os.makedirs(replay_dir, exist_ok=True)
         seen = set()
